@@ -129,9 +129,9 @@ func runProxy(w *casefile.Writer, shards [][][][]Doc, rsealed [][][]bool, fail [
 	env := &proxyEnv{down: downFromFail(shards, fail), calls: make([][]int, len(shards))}
 	clients := map[string]pb.StoreApiClient{}
 	cfg := search.Config{HotStores: &stores.Stores{}, ReadStores: &stores.Stores{}}
-	fracNum := map[string]uint64{}         // fraction name -> number used as hint in the model
-	stOf := map[[2]int]*store{}            // (shard, replica) -> store
-	hostIdx := map[string][2]int{}         // host name -> (shard, replica)
+	fracNum := map[string]uint64{} // fraction name -> number used as hint in the model
+	stOf := map[[2]int]*store{}    // (shard, replica) -> store
+	hostIdx := map[string][2]int{} // host name -> (shard, replica)
 	err, pn, hung := guarded(func() error {
 		for si, reps := range shards {
 			var hosts []string
@@ -394,6 +394,21 @@ func runProxyDocs(w *casefile.Writer, sp *Spec, sr *search.SearchRequest, ing, i
 			}
 		}
 	}
+	// copies[id] = every (source, hint) under which an answering replica holds a hit with that ID. Which of
+	// several copies of an ID is listed is not determined (unstable sort, shards answer in any order): an
+	// observed attribution that IS one of the copies is rendered as the first of them, anything else verbatim.
+	copies := map[[2]uint64][][2]uint64{}
+	for si, reps := range shards {
+		ri := calls[si][len(calls[si])-1]
+		for fi, f := range reps[ri] {
+			for _, d := range f {
+				if p.matches(d) && d.MID >= p.From && d.MID <= p.To {
+					k := [2]uint64{d.MID, d.RID}
+					copies[k] = append(copies[k], [2]uint64{hostSrc(si, ri), hostSrc(si, ri)*100 + uint64(fi)})
+				}
+			}
+		}
+	}
 	page := make([]docObs, len(qpr.IDs))
 	entries := make([]string, len(qpr.IDs))
 	for i, id := range qpr.IDs {
@@ -406,6 +421,15 @@ func runProxyDocs(w *casefile.Writer, sp *Spec, sr *search.SearchRequest, ing, i
 			o.Body = 1
 			if d, ok := stored[k]; ok && bytes.Equal(b, docBody(d)) {
 				o.Body = bodyCode(d)
+			}
+		}
+		if cs := copies[k]; len(cs) > 1 {
+			for _, c := range cs {
+				if c == [2]uint64{o.Src, o.Hint} {
+					o.Src, o.Hint = cs[0][0], cs[0][1]
+					w.Count("proxy-docs:id-with-several-copies")
+					break
+				}
 			}
 		}
 		page[i] = o
